@@ -161,6 +161,8 @@ SCOPES = [
     ("none", {}, None),
     ("field", {"field_name_conditions": [{"type": "include_fields", "fields": ["f1"]}]}, None),
     ("item", {"detection_item_conditions": [{"type": "match_string", "cond": "any", "pattern": ".*v1"}]}, None),
+    # the same field scope written as two OR-linked field-name conditions (the second matches nothing)
+    ("field-or", {"field_name_conditions": [{"type": "include_fields", "fields": ["zz"]}, {"type": "include_fields", "fields": ["f1"]}], "field_name_cond_op": "or"}, None),
     ("rule-true", {"rule_conditions": [{"type": "logsource", "product": "windows"}]}, True),
     ("rule-false", {"rule_conditions": [{"type": "logsource", "product": "linux"}]}, False),
 ]
@@ -168,7 +170,7 @@ SCOPES = [
 
 SCOPE_G1 = ("field-g1", {"field_name_conditions": [{"type": "include_fields", "fields": ["g1"]}]}, None)
 SCOPE_H2 = ("field-h2", {"field_name_conditions": [{"type": "include_fields", "fields": ["h2", "g2"]}]}, None)
-SCOPE_FIELDS = {"field": ["f1"], "field-g1": ["g1"], "field-h2": ["h2", "g2"]}
+SCOPE_FIELDS = {"field": ["f1"], "field-or": ["f1"], "field-g1": ["g1"], "field-h2": ["h2", "g2"]}
 
 
 def plain_values(it):
@@ -272,7 +274,7 @@ def t_drop(m, scope):
                     prune(x)
             n[1][:] = [x for x in n[1] if isinstance(x, Item) or x[1]]
         def gate(it):
-            return item_ok(scope, it) if scope in ("field", "item", "field-g1", "field-h2") else True
+            return item_ok(scope, it) if scope in ("field", "field-or", "item", "field-g1", "field-h2") else True
         prune(node)
 
 
@@ -523,7 +525,7 @@ def judge(res, rname, product, steps, label):
             scope = sc[0]
             if scope == "rule-false" or (scope == "rule-true" and product != "windows"):
                 continue
-            rf(m, scope if scope in ("field", "item", "field-g1", "field-h2") else "none")
+            rf(m, scope if scope in ("field", "field-or", "item", "field-g1", "field-h2") else "none")
         ref = m.formula()
         ref_attrs = {"fields": m.fields, "logsource": {k: v for k, v in m.logsource.items() if v is not None}, "state": m.state, "custom": m.custom}
     except (R.Reject, R.Unspecified, RR.RefUnsupported, Unspec, ValueError, KeyError) as e:
